@@ -124,6 +124,11 @@ def run(ctx):
                           "args": {"scn": c["scn"], "ref": c["ref"]}})
             # the same scenario through parse_tracts(config=..., keyword) of the description / of its TractList: the config
             # text is the later config channel, the keyword the keyword channel, of that one call
+            # a tract built from its components (Tract.from_twprgesec: "parameters are the same as __init__()")
+            if c["scn"]["target"] == "tract" and c["scn"]["s"] not in ("default_ns", "default_ew"):
+                cases.append({"id": "s%dc" % i, "kind": "c13_scenario",
+                              "abs": {"kind": "scenario", "scn": c["scn"], "used": c["used"]},
+                              "args": {"scn": dict(c["scn"], ctor="components"), "ref": c["ref"]}})
             if c["scn"]["target"] == "plss" and c["scn"]["s"] in TRACT_LEVEL:
                 cases.append({"id": "s%db" % i, "kind": "c13_scenario",
                               "abs": {"kind": "scenario", "scn": c["scn"], "used": c["used"]},
